@@ -9,6 +9,8 @@ import (
 	"runtime"
 	"strconv"
 	"strings"
+
+	"simrt"
 )
 
 type slotObj struct {
@@ -92,7 +94,11 @@ type deferredExport struct {
 	key string
 }
 
+// simEpoch: where every task's simulated clock starts (2021-01-01T00:00:00Z).
+const simEpoch = int64(1609459200) * 1_000_000_000
+
 type taskCtx struct {
+	clock    int64 // this task's simulated clock
 	deferred map[int]*deferredExport
 	w        *world
 	objs     map[int]*slotObj
@@ -105,8 +111,17 @@ type taskCtx struct {
 	nExpE    int
 }
 
+// tick advances this task's clock by the operation's tick and makes it the
+// simulated time.  Every task has its own timeline (a pure function of its own
+// operation list), so that a legitimately time-stamped result is the same in the
+// concurrent and in the sequential phase.
+func (c *taskCtx) tick(op *Op) {
+	c.clock += op.Tick
+	simrt.SetNow(c.clock)
+}
+
 func newTaskCtx(w *world) *taskCtx {
-	return &taskCtx{w: w, objs: map[int]*slotObj{}, reps: map[int]*slotRep{}}
+	return &taskCtx{clock: simEpoch, w: w, objs: map[int]*slotObj{}, reps: map[int]*slotRep{}}
 }
 
 func (c *taskCtx) slot(ref *Ref) *slotObj {
@@ -253,6 +268,7 @@ func (c *taskCtx) doExport(rep any, op *Op) (io.Reader, error) {
 // execOp executes the generic operations (dec, obs, rep, exp, lkp) and returns
 // the canonical result.  "skip" means an operand was not available.
 func (c *taskCtx) execOp(op *Op) string {
+	c.tick(op)
 	return guard(func() string {
 		switch op.K {
 		case "dec":
